@@ -19,7 +19,7 @@
 //! outside the crate; it leaves a park token, i.e. also exercises spurious park returns).
 //!
 //! stdout, one line per scenario:
-//!   ok runs=<n> steps=<s> events=<e> [|| <run 0> ## <run 1> ...]
+//!   ok runs=<n> steps=<s> events=<e> pct_starved=<k> [|| <run 0> ## <run 1> ...]
 //!   FAIL <clause> run=<i> seed=<s> :: <detail> :: choices=<c,c,...> [|| <failing run>]
 //! where <run k> = `res=<t0 results>/<t1 results>/.. ;; ev ; ev ; ...` (with `trace`).
 //! clauses: C10:guard-coexist C10:lost-update C10:deadlock C10:step-limit C10:panic C10:try-blocked
@@ -144,6 +144,7 @@ struct OneRun {
   overlaps: u32,
   counter: u64,
   wsections: u64,
+  pct: bool,
 }
 
 type Results = Arc<Mutex<Vec<Vec<String>>>>;
@@ -198,7 +199,6 @@ fn mutex_body(m: &'static HybridMutex<()>, probe: Arc<Probe>, ops: Vec<String>, 
         }
         "ad" => {
           fut = None;
-          push(&results, ti, "D");
         }
         o => panic!("bad mutex op {o}"),
       }
@@ -297,7 +297,6 @@ fn rwlock_body(l: &'static HybridRwLock<()>, probe: Arc<Probe>, ops: Vec<String>
         }
         "ad" => {
           fut = None;
-          push(&results, ti, "D");
         }
         o => panic!("bad rwlock op {o}"),
       }
@@ -307,6 +306,7 @@ fn rwlock_body(l: &'static HybridRwLock<()>, probe: Arc<Probe>, ops: Vec<String>
 }
 
 fn run_once(sc: &Scenario, policy: Policy) -> OneRun {
+  let pct = matches!(policy, Policy::Pct(..));
   let probe = Arc::new(Probe::default());
   let results: Results = Arc::new(Mutex::new(vec![Vec::new(); sc.threads.len()]));
   let mut bodies: Vec<Box<dyn FnOnce() + Send>> = Vec::new();
@@ -332,6 +332,7 @@ fn run_once(sc: &Scenario, policy: Policy) -> OneRun {
     overlaps: probe.overlaps.load(SeqCst),
     counter: probe.counter.load(SeqCst),
     wsections: probe.wsections.load(SeqCst),
+    pct,
   }
 }
 
@@ -370,7 +371,14 @@ fn judge(sc: &Scenario, r: &OneRun) -> Option<(String, String)> {
     Outcome::Deadlock(parked) => {
       return Some(("C10:deadlock".into(), format!("threads {parked:?} parked forever with nobody runnable (lost wakeup); results={:?}", r.results)));
     }
-    Outcome::StepLimit => return Some(("C10:step-limit".into(), "schedule exceeded 60000 steps (livelock / unbounded spin)".into())),
+    Outcome::StepLimit => {
+      // Under the strict-priority PCT policy a spinner can starve the holder of the list spinlock
+      // forever (priority inversion of the unfair scheduler, not of the code): not judged.
+      if r.pct {
+        return None;
+      }
+      return Some(("C10:step-limit".into(), "schedule exceeded 60000 steps under a fair random schedule (livelock / unbounded spin)".into()));
+    }
     Outcome::Panic(m) => return Some(("C10:panic".into(), m.clone())),
     Outcome::Completed => {}
   }
@@ -428,6 +436,7 @@ fn main() {
     let mut events = 0usize;
     let mut fail: Option<(String, String, usize, u64, OneRun)> = None;
     let mut traces: Vec<String> = Vec::new();
+    let mut starved = 0usize;
     for i in 0..sc.runs {
       let seed = sc.seed.wrapping_mul(1_000_003).wrapping_add(i as u64);
       let policy = match &sc.choices {
@@ -449,6 +458,10 @@ fn main() {
         fail = Some((c, d, i, seed, r));
         break;
       }
+      if r.outcome == Outcome::StepLimit {
+        starved += 1;
+        continue;
+      }
       if sc.trace {
         traces.push(fmt_run(&root, &r));
       }
@@ -463,7 +476,7 @@ fn main() {
         writeln!(out).unwrap();
       }
       None => {
-        write!(out, "ok runs={} steps={} events={}", sc.runs, steps, events).unwrap();
+        write!(out, "ok runs={} steps={} events={} pct_starved={}", sc.runs, steps, events, starved).unwrap();
         if sc.trace {
           write!(out, " || {}", traces.join(" ## ")).unwrap();
         }
